@@ -39,6 +39,7 @@ ASSUMPTIONS = ["a refetch query's wrapping fields form a chain of single linked 
 
 def run(ctx):
     ctx.known_findings = lambda: _ops.merged_known(ctx, ID)
+    _ops.install_case_replays(ctx)
     return core.standard_run(ctx)
 
 
